@@ -324,6 +324,11 @@ int read_pax_header(sqfs_istream_t *fp, sqfs_u64 entsize,
 			}
 
 			*set_by_pax |= field->flag;
+
+			/* GNU.sparse.map replaces (and frees) the list that
+			   GNU.sparse.numbytes records are appended to */
+			if (field->type == PAX_TYPE_CONST_STRING)
+				sparse_last = NULL;
 		} else if (!strcmp(key, "GNU.sparse.offset")) {
 			if (parse_uint(value, -1, &diff, 0, 0, &offset))
 				goto fail_malformed;
